@@ -454,7 +454,7 @@ fn gen(ty: &Ty, rng: &mut Rng, ctx: &GenCtx, depth: usize) -> Val {
             Val::Bytes(rng.bytes(n))
         }
         Ty::ByteArray(n) => Val::Bytes(rng.bytes(*n)),
-        Ty::Wrap(t) => gen(t, rng, ctx, depth),
+        Ty::Wrap(t) | Ty::Lenient(t) => gen(t, rng, ctx, depth),
         Ty::Uuid => Val::Bytes(match rng.below(4) {
             0 => vec![0; 16],
             1 => vec![0xff; 16],
